@@ -246,7 +246,12 @@ def replay_case(exe, case, datadir, extra_args=None):
     pre = exe if isinstance(exe, list) else [exe]
     outd = os.path.join(os.path.dirname(datadir.rstrip("/")), "..", "out")
     os.makedirs(outd, exist_ok=True)
-    p = subprocess.run(pre + ["--replay", case, "--data", datadir, "--out", outd] + (extra_args or []),
+    rarg = ["--replay", case]
+    if len(case) > 100000:      # one argv string is limited to 128 KiB
+        cf_ = os.path.join(outd, "replay-case-%d.txt" % os.getpid())
+        open(cf_, "w").write(case)
+        rarg = ["--replay-file", cf_]
+    p = subprocess.run(pre + rarg + ["--data", datadir, "--out", outd] + (extra_args or []),
                        stdout=subprocess.PIPE, stderr=subprocess.STDOUT, env=san_env(), text=True, errors="replace")
     return p.returncode, p.stdout
 
